@@ -70,7 +70,8 @@ CHECKS["C15"] = ("TLC explores SenderImpl (print thread, reader thread, firmware
 CHECKS["C16"] = ("TLC explores DirectWriteImpl (caller, sender thread, reader callback, start-up job) and shows synchrony/error "
                  "surfacing hold exactly outside the stale start-up acknowledgement (F12); the model's schedule choices are "
                  "enumerated and run on the real SerialWriter/PrintrunWriter/printcore threads; TLC judges order, synchrony, error "
-                 "surfacing, termination of write() and disconnect(wait=True) on the logged events; 'the reading requested is available "
+                 "surfacing (also of alarms said while no statement is outstanding), termination of write() and disconnect(wait=True), "
+                 "connection loss in flight and while idle, zero-latency acknowledgements, on the logged events; 'the reading requested is available "
                  "when write() returns' (C16_Reading) is judged by ReportsTrace on executions with several report lines before the ok.",
                  "5 C16", "Trusted: the scripted device (one acknowledgement per line, in order); a 20 ms window before each "
                  "acknowledgement; event order under one lock.")
